@@ -326,8 +326,6 @@ package types
 //@   requires forall i int :: 0 <= i && i < len(options) ==> options[i] != nil
 
 //@ func (*Project).withServices
-//@   except precondition#3 : undischarged on the reference tree (engine limit or missing callee contract), not claimed
-//@   except nilfunc#2 : undischarged on the reference tree (engine limit or missing callee contract), not claimed
 //@   except precondition#2 : undischarged on the reference tree (engine limit or missing callee contract), not claimed
 //@   nopanic[C14,C15]
 //@   requires fn != nil && seen != nil
@@ -403,7 +401,6 @@ package types
 //@     invariant forall k string :: seen(k) ==> has(p.Secrets, k) && p.Secrets[k].marshallContent
 
 //@ func applyMarshallOptions
-//@   except nilfunc#1 : undischarged on the reference tree (engine limit or missing callee contract), not claimed
 //@   nopanic[C14,C20]
 //@   requires p != nil
 //@   requires forall i int :: 0 <= i && i < len(options) ==> options[i] != nil
